@@ -12,6 +12,7 @@ import (
 
 	"goa.design/goa/v3/verifsim"
 	"verif/sim/gen"
+	"verif/sim/spec"
 )
 
 func main() {
@@ -21,10 +22,69 @@ func main() {
 	focus := flag.String("focus", "", "bias towards a topic: views | security")
 	flag.Parse()
 	os.MkdirAll(*out, 0755)
+	// 4n candidates (one tape each), of which n are kept: greedily, the candidate that adds most structural
+	// feature combinations (gen.StructuralFeatures) the batch does not have yet; ties go to the lower index.
+	// Without a focus, one design in eight is drawn with focus "shared" (few attribute names, many patterns:
+	// process-wide state keyed by names or patterns collides across designs of one batch).
+	type cand struct {
+		d     *spec.Design
+		feats []string
+	}
+	var pool, sharedPool []cand
+	for i := 0; i < 4**n; i++ {
+		f := *focus
+		if f == "" && i%8 == 7 {
+			f = "shared"
+		}
+		d := gen.GenDesign(verifsim.NewTape(*seed*1000+uint64(i)), "c", f)
+		c := cand{d, append(gen.StructuralFeatures(d), d.Features...)}
+		if f == "shared" {
+			sharedPool = append(sharedPool, c)
+		} else {
+			pool = append(pool, c)
+		}
+	}
+	have := map[string]bool{}
+	pick := func(from []cand) (cand, []cand) {
+		best, bestGain := 0, -1
+		for i, c := range from {
+			gain := 0
+			for _, f := range c.feats {
+				if !have[f] {
+					gain++
+				}
+			}
+			if gain > bestGain {
+				best, bestGain = i, gain
+			}
+		}
+		c := from[best]
+		for _, f := range c.feats {
+			have[f] = true
+		}
+		return c, append(append([]cand{}, from[:best]...), from[best+1:]...)
+	}
+	var chosen []*spec.Design
 	for i := 0; i < *n; i++ {
+		var c cand
+		switch {
+		case *focus == "" && i%8 == 7 && len(sharedPool) > 0:
+			c, sharedPool = pick(sharedPool)
+		case i%2 == 1:
+			// every other slot takes the next candidate as drawn: greedy choice favours large designs, and
+			// small ones (one feature alone, nothing else in the way) find things large ones hide
+			c, pool = pool[0], pool[1:]
+			for _, f := range c.feats {
+				have[f] = true
+			}
+		default:
+			c, pool = pick(pool)
+		}
+		chosen = append(chosen, c.d)
+	}
+	for i, d := range chosen {
 		name := fmt.Sprintf("d%d", i)
-		t := verifsim.NewTape(*seed*1000 + uint64(i))
-		d := gen.GenDesign(t, name, *focus)
+		d.Name = name
 		b, _ := json.MarshalIndent(d, "", " ")
 		if err := os.WriteFile(filepath.Join(*out, name+".json"), b, 0644); err != nil {
 			fmt.Fprintln(os.Stderr, err)
